@@ -10,11 +10,13 @@ use proptest::prelude::*;
 pub struct Duplex {
     input: io::Cursor<Vec<u8>>,
     pub output: Vec<u8>,
+    /// that many of the next writes are refused with `WouldBlock` before taking a single byte
+    pub refuse_writes: u32,
 }
 
 impl Duplex {
     pub fn new(input: &[u8]) -> Self {
-        Duplex { input: io::Cursor::new(input.to_vec()), output: Vec::new() }
+        Duplex { input: io::Cursor::new(input.to_vec()), output: Vec::new(), refuse_writes: 0 }
     }
 }
 
@@ -26,6 +28,10 @@ impl Read for Duplex {
 
 impl Write for Duplex {
     fn write(&mut self, buf: &[u8]) -> io::Result<usize> {
+        if self.refuse_writes > 0 {
+            self.refuse_writes -= 1;
+            return Err(io::Error::new(io::ErrorKind::WouldBlock, "harness: transport not ready, nothing written"));
+        }
         self.output.extend_from_slice(buf);
         Ok(buf.len())
     }
@@ -35,7 +41,20 @@ impl Write for Duplex {
 }
 
 pub fn connection() -> Connection<Duplex> {
-    Connection::connect(Duplex::new(b"OK MPD 0.23.5\n")).expect("greeting accepted")
+    let mut io = Duplex::new(b"OK MPD 0.23.5\n");
+    // send histories 4 and 5: the connection's first attempt to send something is refused by the
+    // transport before a single byte is taken; the application gives up on that request
+    let refused = crate::core::send_history();
+    if refused == 4 || refused == 5 {
+        io.refuse_writes = 1;
+    }
+    let mut c = Connection::connect(io).expect("greeting accepted");
+    match refused {
+        4 => assert!(c.send_list(CommandList::new(Command::new("stats")).command(Command::new("outputs"))).is_err(), "harness: refused write must fail"),
+        5 => assert!(c.send(Command::new("stats")).is_err(), "harness: refused write must fail"),
+        _ => {}
+    }
+    c
 }
 
 /// What a connection has sent before the command under test (ambient dimension `send_history`):
@@ -145,6 +164,22 @@ pub fn arg_string(max_len: usize) -> impl Strategy<Value = String> {
                 v.into_iter().collect()
             }),
         1 => (0..crate::props::c15::ODD_STRINGS.len()).prop_map(|i| crate::props::c15::ODD_STRINGS[i].to_string()),
+        // an otherwise plain string (letters, or multi-byte text) of 9-80 or 2^k+-1 characters with
+        // exactly ONE character of another class, biased to the first and last eight positions (a scan
+        // that treats the head, the body and the tail of a string differently - word-at-a-time, SIMD,
+        // chunked - is wrong for one of them)
+        3 => (
+            prop_oneof![3 => 9..80usize, 1 => (5..=12u32, -1..=1i32).prop_map(|(k, d)| ((1i32 << k) + d) as usize)],
+            prop_oneof![3 => 0..8usize, 3 => (0..8usize).prop_map(|i| usize::MAX - i), 2 => 0..4200usize],
+            class_char(),
+            any::<bool>(),
+        )
+            .prop_map(|(n, at, c, wide)| {
+                let mut v: Vec<char> = (0..n).map(|i| if wide && i % 5 == 4 { '\u{e9}' } else { (b'a' + (i % 26) as u8) as char }).collect();
+                let i = if at > usize::MAX - 8 { n - 1 - (usize::MAX - at).min(n - 1) } else { at % n };
+                v[i] = c;
+                v.into_iter().collect()
+            }),
     ]
 }
 
@@ -179,6 +214,8 @@ pub struct AsyncSink {
     /// report `is_write_vectored()` and take vectored writes like a socket (bytes from the buffers in
     /// order, a short write may end inside any of them)
     vectored: bool,
+    /// that many of the next writes return Pending without taking a byte (and without waking)
+    stall_writes: u32,
 }
 
 impl tokio::io::AsyncRead for AsyncSink {
@@ -197,6 +234,10 @@ impl tokio::io::AsyncRead for AsyncSink {
 
 impl tokio::io::AsyncWrite for AsyncSink {
     fn poll_write(mut self: std::pin::Pin<&mut Self>, _cx: &mut std::task::Context<'_>, data: &[u8]) -> std::task::Poll<io::Result<usize>> {
+        if self.stall_writes > 0 {
+            self.stall_writes -= 1;
+            return std::task::Poll::Pending;
+        }
         let n = data.len().min(self.max_write.max(1));
         self.output.extend_from_slice(&data[..n]);
         self.writes += 1;
@@ -226,8 +267,24 @@ thread_local! {
 }
 
 fn async_connection(max_write: usize) -> mpd_protocol::AsyncConnection<AsyncSink> {
-    let io = AsyncSink { input: b"OK MPD 0.23.5\n".to_vec(), pos: 0, output: Vec::new(), max_write, writes: 0, vectored: VECTORED.with(|v| v.get()) };
-    crate::seg::block_on(mpd_protocol::AsyncConnection::connect(io)).expect("greeting accepted")
+    let refused = crate::core::send_history();
+    let stall = u32::from(refused == 4 || refused == 5);
+    let io = AsyncSink { input: b"OK MPD 0.23.5\n".to_vec(), pos: 0, output: Vec::new(), max_write, writes: 0, vectored: VECTORED.with(|v| v.get()), stall_writes: stall };
+    let mut c = crate::seg::block_on(mpd_protocol::AsyncConnection::connect(io)).expect("greeting accepted");
+    // send histories 4 and 5: the first send on this connection finds the transport not ready and its
+    // future is dropped before a byte was taken (a caller that timed out / was cancelled)
+    if stall == 1 {
+        use std::{future::Future, task::{Context, Poll, Waker}};
+        let mut cx = Context::from_waker(Waker::noop());
+        if refused == 4 {
+            let mut fut = std::pin::pin!(c.send_list(CommandList::new(Command::new("stats")).command(Command::new("outputs"))));
+            assert!(matches!(fut.as_mut().poll(&mut cx), Poll::Pending), "harness: stalled write must be pending");
+        } else {
+            let mut fut = std::pin::pin!(c.send(Command::new("stats")));
+            assert!(matches!(fut.as_mut().poll(&mut cx), Poll::Pending), "harness: stalled write must be pending");
+        }
+    }
+    c
 }
 
 /// Bytes `AsyncConnection::send` writes for `cmd` over a transport taking `max_write` bytes per write.
